@@ -229,6 +229,13 @@ struct _addrxlat_sys {
 
 	/** Address translation methods. */
 	addrxlat_meth_t meth[ADDRXLAT_SYS_METH_NUM];
+
+	/** Lookup table allocated by the OS-specific set-up (if any).
+	 * Tables of lookup methods are normally owned by whoever installs
+	 * the method; this one was allocated by the library itself, and
+	 * it is freed together with the maps.
+	 */
+	addrxlat_lookup_elem_t *os_lookup_tbl;
 };
 
 /* vtop */
